@@ -11,6 +11,7 @@ it - by transformations that are each semantics-preserving ON THEIR OWN:
   N5  t = E (t unknown to the reference, bound once, E pure, operands not modified)  ->  uses of t replaced by E
   N6  h(args) with h a new module-level helper that the reference module does not define  ->  h's body inlined (fresh names)
   N9  a, b = e1, e2           ->  a = e1 ; b = e2     (no target occurs on the right-hand side)
+  N11 v = A[i] (A has >= 2 axes, i integer indices): v[j, k] -> A[i, j, k], v -> A[i]   (basic indexing yields a view)
   N10 loop body / function body ending in `if C: BODY` (no else)  ->  `if not C: continue` (`return`) ; BODY
   N3  t = E ; return t        ->  return E            (t assigned once, used once, adjacent statements)
       t = E ; T = t           ->  T = E               (same conditions; python evaluates the right-hand side first anyway)
@@ -492,6 +493,88 @@ def _written_names(func):
     return binds, pos
 
 
+def inline_view_aliases(cfunc, rfunc, mapped=()):
+    """N11: `v = A[i]` with A an array of at least two axes (it is subscripted with >= 2 indices somewhere, or allocated with a shape of
+    >= 2 extents) and i plain integer indices: basic indexing returns a VIEW, so v[j, k] is A[i, j, k] and v is A[i] - also after
+    stores through either name.  v must be a local the reference does not have, bound once; A and the names in i must not be rebound
+    after the definition; every use of v must follow it in the same block."""
+    done = []
+    rl = locals_of(rfunc) | params_of(rfunc)
+    for _ in range(8):
+        binds, writes = _written_names(cfunc)
+        ndim2 = set()
+        for n in ast.walk(cfunc):
+            if isinstance(n, ast.Subscript) and isinstance(n.value, ast.Name) and isinstance(n.slice, ast.Tuple) and len(n.slice.elts) >= 2:
+                ndim2.add(n.value.id)
+            if isinstance(n, ast.Assign) and len(n.targets) == 1 and isinstance(n.targets[0], ast.Name) and isinstance(n.value, ast.Call) \
+                    and ast.unparse(n.value.func) in ("numpy.empty", "numpy.zeros", "numpy.ones") and n.value.args \
+                    and isinstance(n.value.args[0], ast.Tuple) and len(n.value.args[0].elts) >= 2:
+                ndim2.add(n.targets[0].id)
+        cand = None
+        for p in ast.walk(cfunc):
+            for f in ("body", "orelse", "finalbody"):
+                b = getattr(p, f, None)
+                if not isinstance(b, list):
+                    continue
+                for i, s in enumerate(b):
+                    if not (isinstance(s, ast.Assign) and len(s.targets) == 1 and isinstance(s.targets[0], ast.Name) and isinstance(s.value, ast.Subscript)
+                            and isinstance(s.value.value, ast.Name)):
+                        continue
+                    v, A = s.targets[0].id, s.value.value.id
+                    idx = s.value.slice.elts if isinstance(s.value.slice, ast.Tuple) else [s.value.slice]
+                    if v in rl or v in mapped or binds.get(v, 0) != 1 or A not in ndim2 or A == v:
+                        continue
+                    if any(isinstance(x, ast.Slice) for x in idx) or not all(isinstance(x, (ast.Name, ast.Constant)) for x in idx):
+                        continue
+                    need = len(idx) + 1
+                    if not any(isinstance(n, ast.Subscript) and isinstance(n.value, ast.Name) and n.value.id == A and isinstance(n.slice, ast.Tuple)
+                               and len(n.slice.elts) >= need for n in ast.walk(cfunc)) and len(idx) > 1:
+                        continue
+                    here = (s.lineno, s.col_offset)
+                    names = {A} | {x.id for x in idx if isinstance(x, ast.Name)}
+                    casts = _cast_rebinds(cfunc)
+                    if any(isinstance(x, ast.Name) and x.id in names and isinstance(x.ctx, ast.Store) and id(x) not in casts and
+                           (x.lineno, x.col_offset) > here for x in ast.walk(cfunc)):
+                        continue
+                    uses = [x for x in ast.walk(cfunc) if isinstance(x, ast.Name) and x.id == v and isinstance(x.ctx, ast.Load)]
+                    tail = [x for later in b[i + 1:] for x in ast.walk(later)]
+                    if not uses or not all(any(u is x for x in tail) for u in uses):
+                        continue
+                    cand = (b, i, s, v, A, idx)
+                    break
+                if cand:
+                    break
+            if cand:
+                break
+        if not cand:
+            break
+        b, i, s, v, A, idx = cand
+
+        class _V(ast.NodeTransformer):
+            def visit_Subscript(self, n):
+                if isinstance(n.value, ast.Name) and n.value.id == v:
+                    n.slice = self.visit(n.slice)
+                    more = n.slice.elts if isinstance(n.slice, ast.Tuple) else [n.slice]
+                    n.value = ast.copy_location(ast.Name(id=A, ctx=ast.Load()), n.value)
+                    n.slice = ast.copy_location(ast.Tuple(elts=[copy.deepcopy(x) for x in idx] + list(more), ctx=ast.Load()), n.slice)
+                    return n
+                self.generic_visit(n)
+                return n
+
+            def visit_Name(self, n):
+                if n.id == v and isinstance(n.ctx, ast.Load):
+                    return ast.copy_location(copy.deepcopy(s.value), n)
+                return n
+        del b[i]
+        if not b:
+            b.append(ast.copy_location(ast.Pass(), s))
+        _V().visit(cfunc)
+        done.append(v)
+    if done:
+        ast.fix_missing_locations(cfunc)
+    return done
+
+
 def inline_extra_temps(cfunc, rfunc, mapped=()):
     """N5: `t = E` where t is a local that the reference does not have, t is bound once, E is a pure value expression whose operands are
     parameters or locals that are bound at most once and never stored through / mutated in place, and every use of t follows the
@@ -578,7 +661,8 @@ def canonicalise_function(cfunc, rfunc):
     m = al.mapping()
     # locals without a counterpart in the reference that merely name a pure sub-expression are expanded again (N5)
     keep = set(m.values()) | {a for a in m}
-    inl = [t for t in inline_extra_temps(cfunc, rfunc, mapped=set(m))]
+    inl = ["view " + t for t in inline_view_aliases(cfunc, rfunc, mapped=set(m))]
+    inl += [t for t in inline_extra_temps(cfunc, rfunc, mapped=set(m))]
     if inl:
         ast.fix_missing_locations(cfunc)
         al2 = Aligner(cfunc, rfunc)
